@@ -17,6 +17,7 @@ include!("colls_parts.inc.rs");
 include!("colls_cap.inc.rs");
 include!("colls_helpers.inc.rs");
 include!("colls_misc.inc.rs");
+include!("colls_gaps.inc.rs");
 
 thread_local! {
     static DROPS: RefCell<Vec<u32>> = const { RefCell::new(Vec::new()) };
@@ -823,6 +824,14 @@ fn main() {
                     for m in helpx::zs_probe(kind, fuse, &ops) { writeln!(w, "X colls helpers case :: {m}").unwrap(); }
                 }
             }
+            else if let Some(rest) = l.strip_prefix("G ") {
+                if let Some(c) = gaps::Case::parse(rest) {
+                    writeln!(w, "GB {}", c.line()).unwrap(); w.flush().unwrap();
+                    let notes = gaps::run(&c);
+                    writeln!(w, "G {}", c.line()).unwrap();
+                    for m in notes { writeln!(w, "X colls gaps case :: {m}").unwrap(); }
+                }
+            }
             else if l.starts_with("V ") {
                 if let Some((notes, vline)) = capx::cap_replay(l) {
                     writeln!(w, "{vline}").unwrap();
@@ -862,6 +871,13 @@ fn main() {
             let (notes, vline) = capx::cap_history(&mut r, &mut |l: &str| { writeln!(w, "{l}").unwrap(); w.flush().unwrap(); });
             writeln!(w, "{vline}").unwrap();
             for m in notes { writeln!(w, "X colls cap history :: {m}").unwrap(); }
+        }
+        if case % 5 == 0 {
+            let c = gaps::gen_case(&mut r);
+            writeln!(w, "GB {}", c.line()).unwrap(); w.flush().unwrap();
+            let notes = gaps::run(&c);
+            writeln!(w, "G {}", c.line()).unwrap();
+            for m in notes { writeln!(w, "X colls gaps case :: {m}").unwrap(); }
         }
         if case % 10 == 6 {
             let hp = helpx::gen_params(&mut r);
